@@ -121,12 +121,13 @@ CHECKS.update({
         cat="model_checking", engine="kani",
         text=("PARTIAL (scalar / id part of the felt-deserialisation layer only): Kani harnesses over the real "
               "felt252_serde.rs mounted with include!: the deserialisers of usize, StatementIdx, "
-              "BranchTarget, VarId, VersionId and the generic Vec<T> deserialiser (instantiated at u64), "
+              "BranchTarget, VarId, UserTypeId, VersionId, GenericArg (all six tags) and the generic Vec<T> "
+              "deserialiser (instantiated at u64), "
               "plus version_id_from_felt252s, return Ok/Err on arbitrary slices of <= 6 felts (64-bit "
               "symbolic contents, symbolic length) without panic, overflow or out-of-bounds access, and "
               "vec_with_bounded_capacity never reserves more than the remaining input. NOT covered (CBMC "
               "runs out of memory, see DESIGN 7.2): decompress, the struct deserialisers (BranchInfo, "
-              "Invocation, Statement, FunctionSignature, ConcreteTypeInfo, GenericArg); NOT covered at "
+              "Invocation, Statement, FunctionSignature, ConcreteTypeInfo); NOT covered at "
               "all: ProgramRegistry, metadata computation, compile on mutated programs."),
         technique="Kani/CBMC bounded model checking of the deserialisers on arbitrary short inputs",
         ref="DESIGN.md 3/C14", note=B_NOTE),
